@@ -77,6 +77,19 @@ def mo_inv(E, o):
 
 
 @specfunc
+def wf_lists(E, o):
+    """typing of the pre-state (the engine's convention, stated for every key at once): the value lists that exist at
+    entry are pre-state objects (positive references; objects allocated during the call get negative ones)"""
+    _n, _a, dom, val = M.view(E, o)
+    k = z3.Const("k!wf%d" % next(E.counter), KS)
+    return Sym(z3.ForAll([k], z3.Implies(z3.Select(dom, k), z3.Select(val, k) > 0)), "bool")
+
+
+wf_lists.native = lambda o: True
+WF = ["wf_lists(self)"]
+
+
+@specfunc
 def newest(E, o, key):
     """last element of the key's value list"""
     lv = B.getitem(E, _d(E, o), key)
@@ -220,30 +233,30 @@ ENS_APPEND = ["mo_inv(self)", "appended(self, key, value)", "implies(not old(key
 
 # odict.__setitem__ for a modict receiver (values are list objects): as the C39 contract of odict.__setitem__, with
 # the stored object stated by identity (`is`), which is what the list-per-key invariant needs
-contract(F, "odict.__setitem__", "C39", params=dict(MP, key=K, val=VL), requires=["inv(self)"], modifies=MODS,
+contract(F, "odict.__setitem__", "C39", params=dict(MP, key=K, val=VL), requires=["inv(self)"], assumes=WF, modifies=MODS,
          ghost={"after": {"self._keys.append(key)": OD._g_after_append}},
          ensures=["inv(self)", "key in self and self[key] is val", "same_vals_except(self, key)"] + KEYS_KEPT,
          note="variant for modict receivers (list values)")
-contract(F, "modict.append", "C39", params=dict(MP, key=K, value=V_), requires=["mo_inv(self)"], modifies=MO_MODS,
+contract(F, "modict.append", "C39", params=dict(MP, key=K, value=V_), requires=["mo_inv(self)"], assumes=WF, modifies=MO_MODS,
          ensures=ENS_APPEND, replay=mo_harness(extra=_kv, model=_m_append))
-contract(F, "modict.__setitem__", "C39", params=dict(MP, key=K, value=V_), requires=["mo_inv(self)"], modifies=MO_MODS,
+contract(F, "modict.__setitem__", "C39", params=dict(MP, key=K, value=V_), requires=["mo_inv(self)"], assumes=WF, modifies=MO_MODS,
          ensures=ENS_APPEND, replay=mo_harness(extra=_kv, model=_m_append),
          note="setting an item APPENDS to the key's value list (class docstring)")
-contract(F, "modict.__getitem__", "C39", params=dict(MP, key=K), requires=["mo_inv(self)"], modifies=[],
+contract(F, "modict.__getitem__", "C39", params=dict(MP, key=K), requires=["mo_inv(self)"], assumes=WF, modifies=[],
          ensures=["key in self", "result == newest(self, key)"], raises={"KeyError": ["key not in self"]}, returns=V_,
          replay=mo_harness(extra=_k, model=lambda ks, ls, env: (ks, ls, ls[env["key"]][-1] if env["key"] in ls
                                                                 else KeyError)))
-contract(F, "modict.get", "C39", params=dict(MP, key=K, default=V_), requires=["mo_inv(self)"], modifies=[],
+contract(F, "modict.get", "C39", params=dict(MP, key=K, default=V_), requires=["mo_inv(self)"], assumes=WF, modifies=[],
          ensures=["implies(key in self, result == newest(self, key))", "implies(key not in self, result == default)"],
          returns=V_,
          replay=mo_harness(extra=lambda rng, mod: {"key": rng.choice(M.NKEYS), "default": -1},
                            model=lambda ks, ls, env: (ks, ls, ls[env["key"]][-1] if env["key"] in ls else -1)),
          note="index=-1 (newest), kind=None, explicit default of the value type")
-contract(F, "modict.getlist", "C39", params=dict(MP, key=K), requires=["mo_inv(self)"], modifies=[],
+contract(F, "modict.getlist", "C39", params=dict(MP, key=K), requires=["mo_inv(self)"], assumes=WF, modifies=[],
          ensures=["implies(key in self, result is self[key])", "implies(key not in self, len(result) == 0 and fresh(result))"],
          returns=VL,
          replay=mo_harness(extra=_k, model=lambda ks, ls, env: (ks, ls, list(ls.get(env["key"], [])))))
-contract(F, "modict.has_key", "C39", params=dict(MP, key=K), requires=["mo_inv(self)"], modifies=[],
+contract(F, "modict.has_key", "C39", params=dict(MP, key=K), requires=["mo_inv(self)"], assumes=WF, modifies=[],
          ensures=["result == (key in self)"], returns=BOOL,
          replay=mo_harness(extra=_k, model=lambda ks, ls, env: (ks, ls, env["key"] in ls)))
 
@@ -255,7 +268,123 @@ def _m_replace(ks, ls, env):
     return ks, ls, None
 
 
-contract(F, "modict.replace", "C39", params=dict(MP, key=K, value=V_), requires=["mo_inv(self)"], modifies=MODS,
+contract(F, "modict.replace", "C39", params=dict(MP, key=K, value=V_), requires=["mo_inv(self)"], assumes=WF, modifies=MODS,
          ensures=["mo_inv(self)", "key in self and len(self[key]) == 1 and self[key][0] == value", "fresh(self[key])",
                   "others_kept(self, key)"] + KEYS_KEPT,
          replay=mo_harness(extra=_kv, model=_m_replace))
+
+
+# ------------------------------------------------------------------------------------------- setdefault / pop family
+def _m_setdefault(ks, ls, env):
+    k = env["key"]
+    if k in ls:
+        return ks, ls, ls[k][-1]
+    return ks + [k], dict(ls, **{k: [env["default"]]}), env["default"]
+
+
+contract(F, "modict.setdefault", "C39", params=dict(MP, key=K, default=V_), requires=["mo_inv(self)"], assumes=WF,
+         modifies=MO_MODS,
+         ensures=["mo_inv(self)",
+                  "implies(old(key in self), result == old_newest(self, key) and others_kept(self, None) and "
+                  "keys_unchanged(self))",
+                  "implies(not old(key in self), result == default and appended(self, key, default) and "
+                  "others_kept(self, key) and is_concat(self._keys, old_keys(self), [key]))"],
+         returns=V_,
+         replay=mo_harness(extra=lambda rng, mod: {"key": rng.choice(M.NKEYS), "default": rng.randint(10, 19)},
+                           model=_m_setdefault),
+         note="explicit default of the value type, kind=None")
+
+
+def _m_pop(lst):
+    def model(ks, ls, env):
+        k = env["key"]
+        if k not in ls:
+            return (ks, ls, env["pa"][0]) if env.get("pa") else (ks, ls, KeyError)
+        ls = dict(ls)
+        v = ls.pop(k)
+        return [x for x in ks if x != k], ls, (v if lst else v[-1])
+    return model
+
+
+def _pop_call(meth):
+    return lambda env, nr: getattr(env["self"], meth)(env["key"], *env.get("pa", ()))
+
+
+_POP_GONE = ["mo_inv(self)", "key not in self", "others_kept(self, key)"]
+_POP_KEYS = "removed_at(self._keys, old_keys(self), old_pos(self, key))"
+_NOCHANGE = [UNCHANGED, "others_kept(self, None)"]
+for _meth, _res, _lst in (("pop", "result == old_newest(self, key)", False),
+                          ("poplist", "seq_eq(result, old(self[key]))", True)):
+    contract(F, "modict." + _meth, "C39", params=dict(MP, key=K), requires=["mo_inv(self)"], assumes=WF, modifies=MODS,
+             ensures=_POP_GONE + ["old(key in self)", _res, _POP_KEYS],
+             raises={"KeyError": ["old(key not in self)"] + _NOCHANGE}, returns=(VL if _lst else V_),
+             replay=mo_harness(extra=_k, call=_pop_call(_meth), model=_m_pop(_lst)), note="called without a default")
+contract(F, "modict.pop", "C39", params=dict(MP, key=K, pa=("vararg", (V_,))), requires=["mo_inv(self)"], assumes=WF,
+         modifies=MODS,
+         ensures=_POP_GONE + ["implies(old(key in self), result == old_newest(self, key) and %s)" % _POP_KEYS,
+                              "implies(not old(key in self), result == pa[0] and keys_unchanged(self))"],
+         returns=V_,
+         replay=mo_harness(extra=lambda rng, mod: {"key": rng.choice(M.NKEYS), "pa": (-1,)}, call=_pop_call("pop"),
+                           model=_m_pop(False)),
+         note="called with a default: never raises (poplist with a default returns either a list or the default: "
+              "not under contract, bounded stand-in only)")
+
+
+# ---- popitem / poplistitem: LIFO by default, FIFO with last=False (docstrings).  On the pinned tree both pass
+# `last=` to odict.popitem, which takes no such parameter (call-shape obligation).  odict.popitem is given a second
+# contract variant that knows `last`; on a tree whose odict.popitem has no such parameter `last` is the constant True.
+def _set_last(E):
+    E.frame.env.setdefault("last", True)
+
+
+_PI_ENS = ["len(old_keys(self)) > 0",
+           "implies(last, result[0] == old_keys(self)[len(old_keys(self)) - 1] and "
+           "is_slice(self._keys, old_keys(self), 0, len(old_keys(self)) - 1))",
+           "implies(not last, result[0] == old_keys(self)[0] and "
+           "is_slice(self._keys, old_keys(self), 1, len(old_keys(self))))",
+           "result[0] not in self"]
+contract(F, "odict.popitem", "C39", params=dict(M.P, last=BOOL), setup=_set_last, requires=["inv(self)"], modifies=MODS,
+         ensures=["inv(self)"] + _PI_ENS + ["same_vals_except(self, result[0])", "result[1] is old_val(self, result[0])"],
+         raises={"KeyError": ["len(old_keys(self)) == 0", UNCHANGED]},
+         returns=lambda E, env: Tup(_d(E, env["self"]).kt, _d(E, env["self"]).vt),
+         note="variant with the `last` parameter (LIFO / FIFO); without that parameter in the source, last == True")
+
+
+@specfunc
+def old_val(E, o, key):
+    return _old(E, lambda: B.getitem(E, _d(E, o), key))
+
+
+def _m_popitem(lst):
+    def model(ks, ls, env):
+        if not ks:
+            return ks, ls, KeyError
+        k = ks[-1] if env.get("last", True) else ks[0]
+        ls = dict(ls)
+        v = ls.pop(k)
+        return [x for x in ks if x != k], ls, (k, v if lst else v[-1])
+    return model
+
+
+_PI_EXTRA = lambda rng, mod: {"last": rng.random() < 0.5}
+contract(F, "modict.popitem", "C39", params=dict(MP, last=BOOL), requires=["mo_inv(self)"], assumes=WF, modifies=MODS,
+         ensures=["mo_inv(self)"] + _PI_ENS + ["others_kept(self, result[0])", "result[1] == old_newest(self, result[0])"],
+         raises={"KeyError": ["len(old_keys(self)) == 0"] + _NOCHANGE}, returns=Tup(K, V_),
+         replay=mo_harness(extra=_PI_EXTRA, model=_m_popitem(False)), note="index=-1 (newest)")
+contract(F, "modict.poplistitem", "C39", params=dict(MP, last=BOOL), requires=["mo_inv(self)"], assumes=WF,
+         modifies=MODS,
+         ensures=["mo_inv(self)"] + _PI_ENS + ["others_kept(self, result[0])",
+                                               "seq_eq(result[1], old_val(self, result[0]))"],
+         raises={"KeyError": ["len(old_keys(self)) == 0"] + _NOCHANGE}, returns=Tup(K, VL),
+         replay=mo_harness(extra=_PI_EXTRA, model=_m_popitem(True)))
+
+# ---- views: newest value per key, in key order
+contract(F, "modict.values", "C39", params=dict(MP), requires=["mo_inv(self)"], assumes=WF, modifies=[],
+         ensures=["fresh(result)", "newest_of(result, self)"], returns=VL,
+         replay=mo_harness(model=lambda ks, ls, env: (ks, ls, [ls[k][-1] for k in ks])))
+contract(F, "modict.items", "C39", params=dict(MP), requires=["mo_inv(self)"], assumes=WF, modifies=[],
+         ensures=["fresh(result)", "newest_of(result, self, True)"], returns=List(Tup(K, V_)),
+         replay=mo_harness(model=lambda ks, ls, env: (ks, ls, [(k, ls[k][-1]) for k in ks])))
+contract(F, "modict.listitems", "C39", params=dict(MP), requires=["mo_inv(self)"], assumes=WF, modifies=[],
+         ensures=["fresh(result)", "items_of(result, self)"], returns=List(Tup(K, VL)),
+         replay=mo_harness(model=lambda ks, ls, env: (ks, ls, [(k, ls[k]) for k in ks])))
